@@ -1,4 +1,106 @@
-(* placeholder until Proofs.v lands: the correspondence check (Check.v) already runs *)
-From Coercion.Builder Require Import Model Spec.
-Theorem c20_placeholder : True. Proof. exact I. Qed.
-Print Assumptions c20_placeholder.
+(* C20 - any sequence of builder calls either yields exactly the plan that directly constructing the
+   same hierarchy would yield, or reports the first misuse as an error that every later call and
+   Plan() keep returning until Reset; it never panics and never drops or misplaces an object.
+
+   Model: Coercion.Builder.Model - the cursor machine of workflow/builder/builder.go (tree under
+   construction, chain of frames, sticky error, emitted flag; one function per public method; result
+   Ok | Err (class, identity of the error value) | Panic).  [run_session dev_none (a, calls)] is what
+   New(a) followed by [calls] returns, call by call (call 0 is New).
+   Reference: Coercion.Builder.Spec - [parse], a recursive-descent reading of the call list as a
+   bracketed pre-order serialisation (AddChecks/AddBlock/AddSequence open, Up closes, the end closes
+   what is open), giving the tree or the first call that does not fit with the class of that misuse;
+   [spec_session], what every call must return according to that reading; [monitor], stickiness as a
+   function of calls and results alone.
+
+   All theorems are for [dev_none].  The code as it is needs one deviation, B2 (Reset returns a failing
+   option's error without recording it): [c20_dev_B2_refutes] shows that it breaks the property. *)
+From Coercion.Base Require Import Plan.
+From Coercion.Builder Require Import Model Spec Proofs ProofsSession ProofsMonitor ProofsClauses Examples.
+
+(* no call ever panics *)
+Theorem c20_never_panics :
+  forall x : session, Forall (fun r : res => r_ret r <> RPanic) (run_session dev_none x).
+Proof. exact never_panics. Qed.
+Print Assumptions c20_never_panics.
+
+(* the builder returns, call by call, what the reference reading of the call list says: ok while the
+   calls parse; at Plan() the parsed tree; from the first misuse on that error and no tree, until Reset;
+   after a successful Plan() the use-after-emit error, until Reset *)
+Theorem c20_builder :
+  forall x : session, run_session dev_none x = spec_session x.
+Proof. exact session_spec. Qed.
+Print Assumptions c20_builder.
+
+(* the reference is total: the fuel of the parser never runs out, and it consumes a prefix of the list *)
+Theorem c20_parse_total :
+  forall (t : tplan) (l : list call),
+    p_stop (parse t l) <> SFuel /\ exists pre, l = pre ++ p_rest (parse t l).
+Proof. exact parse_total. Qed.
+Print Assumptions c20_parse_total.
+
+(* clause 1, written out: if the calls up to the first Plan() contain no misuse, each returns ok, Plan()
+   returns exactly the tree the parser built from them, and every later call fails (use after emit) *)
+Theorem c20_valid_calls_emit_parse :
+  forall (a : parg) (body r : list call),
+    bad_plan a = None -> no_reset body = true ->
+    p_stop (parse (fresh a) body) = SEnd -> p_rest (parse (fresh a) body) = CPlan :: r ->
+    run_session dev_none (a, body) =
+    ok_res :: repeat ok_res (p_n (parse (fresh a) body))
+           ++ emit_res (p_val (parse (fresh a) body))
+           :: done_results None (S (S (p_n (parse (fresh a) body)))) r.
+Proof. exact valid_calls_emit_parse. Qed.
+Print Assumptions c20_valid_calls_emit_parse.
+
+(* clause 2, written out: the calls before the first misuse return ok; the misuse and every later call,
+   Plan() included, return that one error value (class e, created by that call) and no tree *)
+Theorem c20_first_misuse_is_sticky :
+  forall (a : parg) (body : list call) (e : eclass),
+    bad_plan a = None -> no_reset body = true ->
+    p_stop (parse (fresh a) body) = SBad e ->
+    run_session dev_none (a, body) =
+    ok_res :: repeat ok_res (p_n (parse (fresh a) body))
+           ++ map (fun _ => stuck_res (e, S (p_n (parse (fresh a) body)))) (p_rest (parse (fresh a) body)).
+Proof. exact first_misuse_sticky. Qed.
+Print Assumptions c20_first_misuse_is_sticky.
+
+(* "until Reset": what follows a Reset does not depend on anything that came before it *)
+Theorem c20_reset_starts_afresh :
+  forall (i : nat) (s1 s2 : st) (a : parg) (l : list call),
+    run dev_none i s1 (CReset a :: l) = run dev_none i s2 (CReset a :: l).
+Proof. exact reset_starts_afresh. Qed.
+Print Assumptions c20_reset_starts_afresh.
+
+(* stickiness as a monitor over calls and results alone (the same function is evaluated on what the
+   real builder returned): no panic; an error, once returned, is returned by every call and by Plan()
+   until Reset, with no tree; a Reset that fails leaves its own error in force; after a successful
+   Plan() every call returns a use-after-emit error *)
+Theorem c20_sticky_monitor :
+  forall x : session, monitor x (run_session dev_none x) = true.
+Proof. exact monitor_holds. Qed.
+Print Assumptions c20_sticky_monitor.
+
+(* the deviation the code needs today is a violation of the property, not a loosening of the check:
+   New; Reset(ok, ok, WithGroupID(uuid.Nil)) returns an error; AddBlock; Plan() returns a plan *)
+Theorem c20_dev_B2_refutes :
+  monitor b2_witness (run_session dev_only_B2 b2_witness) = false.
+Proof. exact dev_B2_refutes. Qed.
+Print Assumptions c20_dev_B2_refutes.
+
+(* ---- not vacuous ---- *)
+Example c20_ex_parse :
+  parse (new_plan 1) (ex_calls ++ [CPlan; exA 12]) =
+  {| p_val := ex_tree; p_n := 12; p_stop := SEnd; p_rest := [CPlan; exA 12] |}.
+Proof. vm_compute. reflexivity. Qed.
+Example c20_ex_session : run_session dev_none ex_session = ex_results.
+Proof. vm_compute. reflexivity. Qed.
+Example c20_ex_hypotheses_1 :
+  bad_plan (exP 1) = None /\ no_reset (ex_calls ++ [CPlan; exA 12]) = true
+  /\ p_stop (parse (fresh (exP 1)) (ex_calls ++ [CPlan; exA 12])) = SEnd.
+Proof. vm_compute. auto. Qed.
+Example c20_ex_hypotheses_2 :
+  p_stop (parse (fresh (exP 13)) [exB 14; exK GPost 15 []; CUp; exK GPost 16 []; exA 17; CPlan]) = SBad EDuplicate
+  /\ p_n (parse (fresh (exP 13)) [exB 14; exK GPost 15 []; CUp; exK GPost 16 []; exA 17; CPlan]) = 3.
+Proof. vm_compute. auto. Qed.
+Example c20_ex_monitor_rejects :        (* a run in which the error goes away without a Reset *)
+  monitor (exP 1, [CUp; exB 2]) [ok_res; stuck_res (EUpFromRoot, 1); ok_res] = false.
+Proof. vm_compute. reflexivity. Qed.
